@@ -21,6 +21,10 @@ CLAIMS = {
    text="Structural clauses of server robustness, for all paths: one deferred Session.Close covering every exit (returns and panics) after NewSession succeeded; recover in every server goroutine and deferred connection close/unregister; buffered-literal check installed on every server decoder and refusing every size > 4096 (evaluated); APPEND limit dominating accept/read/hand-over of the literal; every input-driven recursion cycle of the call graph depth-bounded (Decoder.List's guard checked, or a capped strictly increasing counter proven around every cycle); IDLE goroutine release and buffered result channel; wire-supplied integers never summed unguarded into a slice bound and compared with a length before use as a bound; every FETCH response writer closed on all paths (interprocedural hand-over summaries). 'other': these are necessary conditions; absence of every panic for every byte stream is not decided.",
    technique="call-graph SCC analysis with ranking-function recognition, must-dataflow pairing rules (defer/close/recover), finite-domain evaluation of the literal cap, taint of wire-sourced integer fields into slice bounds",
    design="§4 C06"),
+ "C10": dict(
+   text="Structural clauses behind 'every client command terminates': the reader goroutine's deferred teardown (close(decCh); recover + closeWithError with a provably non-nil error) is registered before the read loop; closeWithError closes the connection, takes the whole pending list and completes each command on every path; removal-by-tag is paired with exactly one completion incl. the deferred error completion; every streaming command's channel is closed by completeCommand and done is sent-then-closed unconditionally; a failed flush closes the client; completion cancels continuation requests and Wait callers honour the error; commands are initialised before publication. 'other': necessary conditions for termination decided on all paths; liveness under each fault offset and the caller's side of the streaming contract are not decided.",
+   technique="must-dataflow over go/ssa (deferred teardown, exit coverage, completion counting), type-directed exhaustiveness of channel closing",
+   design="§4 C10"),
  "C13": dict(
    text="Static lockset over every access (reads, writes, map updates) to the mutex-guarded fields of Client from every goroutine root (all exported entry points, the reader goroutine, every go statement), with interprocedural entry sets and lock-transfer summaries; publication rule (no unlocked store through a command after it enters the pending list); command-encoder (encoder lock) pairing incl. ownership transfer to AppendCommand/idleCommand; removal-from-pending paired with exactly one completion on every path; buffered done channel; tag counter incremented only under the mutex. 'other': data-race freedom is decided for the mutex-guarded state by a sound-by-construction must-lockset; fields synchronised by channel hand-off (decErr, greetingErr, bw) and liveness are not decided.",
    technique="interprocedural must-lockset analysis over go/ssa with access paths and lock-effect summaries; publication and pairing dataflow rules",
@@ -29,6 +33,14 @@ CLAIMS = {
    text="Lock-order graph over all mutex classes of imapserver+imapmemserver built from every acquisition reachable from the serving and IDLE goroutines (callback-aware: locks a callee holds when it invokes a passed closure are attributed to the call site; lock-transfer summaries for the response-encoder wrappers) and checked acyclic including same-class nesting; must-lockset for every field laid out under a mutex (struct-layout convention + 'protected by' comments) with the writer-locks discipline and connection-confinement for Conn fields; …Locked call discipline; no blocking channel operation under mailbox/tracker/user locks. 'other': deadlock freedom by lock order and race freedom for guarded fields are decided structurally; 'every command completes' as liveness is not.",
    technique="interprocedural lockset and lock-order analysis over go/ssa + VTA/CHA call graph, with higher-order (callback) summaries",
    design="§4 C14"),
+ "C17": dict(
+   text="STARTTLS boundary clauses on both sides, for all paths: after the OK the server re-seats br and bw on a stream derived only from tls.Server (value-flow through wrapReadWriter, whose body is checked) and installs the TLS conn, holding the write lock across the switch; the client re-seats br/bw on tls.Client in upgradeStartTLS, which is called only after the CRLF of the tagged OK of a successful STARTTLS command; NewStartTLS returns a client only on State()==NotAuthenticated and closes it otherwise; AUTH=/LOGINDISABLED/STARTTLS advertisement tied to canAuth/canStartTLS edges and canStartTLS's truth table (2x5x2) evaluated exhaustively. 'other': the re-seating is the structural necessary condition for 'early plaintext is never parsed as protected data'; crypto/tls itself is trusted.",
+   technique="value-flow (derives-only-from) and must-pass-through dataflow over go/ssa, exhaustive finite-domain evaluation of canStartTLS",
+   design="§4 C17"),
+ "C18": dict(
+   text="Client syntax legality clauses: both literal-synchronisation decisions evaluated over every capability subset x sizes {4096,4097} against RFC 7888; Encoder.Literal's '+' marker and the CRLF-flush + Wait-success gate before the payload writer (path-state analysis); provenance of the three encoder mode flags from the right CapSet.Has queries; CapSet.Has implication table (96 rows); validQuoted per-byte table (all 256 bytes x UTF-8 mode, lengths 4096/4097); every Encoder.Quoted call site validated/constant/single rune; continuation-request cancellation on completion. 'other': exhaustive over the finite abstract domains and all call sites; timing of network writes is not decided.",
+   technique="exhaustive finite-domain evaluation of decision code on the typed AST, path-state dataflow and value-provenance rules over go/ssa",
+   design="§4 C18"),
  "C19": dict(
    text="SearchCriteria.And is evaluated as an abstract function over order types (each zero-means-unset scalar touched only through comparisons/zero tests/copies, so one representative per ordering decides all values): 6 fields x 9 orderings exhaustive; every field merged; list fields are same-field concatenations; the server's SEARCH parser appends list keys to their own field and folds scalar keys only through And. 'other': the evaluation is exhaustive over the abstract domain and the structural rules cover all sites, but a backend's matcher is outside the analysis.",
    technique="finite-domain abstract evaluation of And over order types on the typed AST + AST/SSA who-may-write rules on SearchCriteria fields",
